@@ -34,6 +34,7 @@ struct Outcome {
 	bool sent = false;
 	std::string wellformed;  // "" or the first RFC 1035 rule broken
 	bool ref_agrees = false; // independent decoder of the document gives the same bytes as the payload / a prefix
+	bool ref_exact = false;  // ... the complete payload: it fitted the answer format as emitted
 	uint16_t qtype_seen = 0; char name0 = 0;
 };
 
@@ -52,6 +53,7 @@ inline Outcome roundtrip(const Conf &c, const Bytes &payload, uint16_t qid = 0x4
 	refproto::Answer a;
 	if (refproto::decode_answer(o.wire, a) && a.ok) {
 		o.ref_agrees = a.payload.size() <= payload.size() && (a.payload.empty() || !memcmp(a.payload.data(), payload.data(), a.payload.size()));
+		o.ref_exact = a.payload == payload;
 	}
 	sim::Datagram dg; dg.data = o.wire;
 	sim::W.feed.push_back(dg);
